@@ -7,7 +7,7 @@ that rules can relate a value to the conditions under which it was produced
 without path-sensitive exploration.
 """
 
-PHI_LIMIT = 12
+PHI_LIMIT = 64
 
 
 class T(object):
@@ -227,9 +227,11 @@ def join(*vals, **kw):
         return alts[0][0]
     if len(alts) > PHI_LIMIT:
         # keep heap objects / callables (needed for dispatch); widen the rest
-        keep = [(t, o) for t, o in alts
+        heap = [(t, o) for t, o in alts
                 if isinstance(t, (Obj, ListObj, DictObj, GenObj, FuncRef, Bound,
                                   ClsRef, LambdaRef, EnumVal, Const))]
+        rest = [(t, o) for t, o in alts if (t, o) not in heap]
+        keep = heap + rest[:max(0, PHI_LIMIT - len(heap))]
         if len(keep) < len(alts):
             keep.append((Unknown('widened'), None))
         alts = keep
